@@ -65,7 +65,7 @@ func txPerts(tx *transaction.Transaction) []pert {
 			pert{fmt.Sprintf("in%d.sequence", i), false, func(t *transaction.Transaction) bool { t.Inputs[i].Sequence ^= 0x80000000; return true }},
 			pert{fmt.Sprintf("in%d.issuance-presence", i), false, func(t *transaction.Transaction) bool {
 				in := t.Inputs[i]
-				if in.Index == 0xffffffff || (in.Index == 0x3fffffff && in.IsPegin) {
+				if in.Index == 0x3fffffff && in.IsPegin {
 					return false
 				}
 				if in.Issuance != nil {
@@ -160,7 +160,7 @@ func classOf(name string) string {
 // C04 on a transaction value: the whole single-field perturbation matrix
 func checkC04Tx(t *Toks) string {
 	tx := readTx(t)
-	if !wfTx(tx) {
+	if !wfTxHash(tx) {
 		return "SKIP not-wf"
 	}
 	if len(tx.Inputs) > 12 || len(tx.Outputs) > 12 {
@@ -178,7 +178,7 @@ func checkC04Tx(t *Toks) string {
 		if !p.apply(c) {
 			continue
 		}
-		if !wfTx(c) {
+		if !wfTxHash(c) {
 			continue
 		}
 		n++
